@@ -2,6 +2,7 @@ package props
 
 import (
 	"fmt"
+	"net"
 	"strconv"
 	"strings"
 	"sync"
@@ -24,12 +25,12 @@ type C20Case struct {
 	Storm    int   `json:"storm"`     // goroutines that keep opening new connections while the emulator terminates
 }
 
-var c20StateNames = []string{"idle", "pipeline-unread", "inside-MULTI", "blocked-BLPOP", "blocked-BLMOVE", "mid-frame", "big-replies-unread"}
+var c20StateNames = []string{"idle", "pipeline-unread", "inside-MULTI", "blocked-BLPOP", "blocked-BLMOVE", "mid-frame", "big-replies-unread", "reset-before-reply", "closed-after-pipeline"}
 
 func c20Gen(t *rapid.T) C20Case {
 	c := C20Case{Cycles: rapid.IntRange(1, 3).Draw(t, "cycles"), TwoStep: rapid.Bool().Draw(t, "twostep"), Second: rapid.IntRange(0, 2).Draw(t, "second") == 0, KillKind: rapid.IntRange(0, 3).Draw(t, "kill"), Storm: pick(t, "storm", 0, 0, 1, 4, 8)}
 	for n := rapid.IntRange(0, 6).Draw(t, "conns"); n > 0; n-- {
-		c.States = append(c.States, weighted(t, "state", []int{4, 3, 3, 3, 3, 3, 1}))
+		c.States = append(c.States, weighted(t, "state", []int{4, 3, 3, 3, 3, 3, 1, 2, 2}))
 	}
 	return c
 }
@@ -71,6 +72,7 @@ func c20Run(c C20Case, st *kit.Stats) error {
 
 		// client activity at the moment of termination
 		conns := make([]*kit.Conn, len(c.States))
+		gone := make([]bool, len(c.States)) // connections the client side has closed itself
 		for i, s := range c.States {
 			cn, err := kit.Dial(emu.Addr)
 			if err != nil {
@@ -97,6 +99,26 @@ func c20Run(c C20Case, st *kit.Stats) error {
 			case 5:
 				full := kit.EncodeCmd("SET", "half"+strconv.Itoa(i), "value")
 				cn.Write(full[:len(full)/2])
+			case 7:
+				// the peer resets the connection while a reply is still due: the server's write fails later
+				cn.Write(kit.EncodeCmd("BLPOP", "empty"+strconv.Itoa(i), "0.03"))
+				time.Sleep(2 * time.Millisecond)
+				if tc, ok := cn.C.(*net.TCPConn); ok {
+					tc.SetLinger(0)
+				}
+				cn.Close()
+				gone[i] = true
+			case 8:
+				var buf []byte
+				for j := 0; j < 200; j++ {
+					buf = append(buf, kit.EncodeCmd("INCR", "ctr"+strconv.Itoa(i))...)
+				}
+				cn.Write(buf)
+				if tc, ok := cn.C.(*net.TCPConn); ok {
+					tc.SetLinger(0)
+				}
+				cn.Close()
+				gone[i] = true
 			case 6:
 				// the server ends up stuck in a write to a client that is not reading
 				admin.Do("SET", "big", strings.Repeat("B", 1<<20))
@@ -111,6 +133,12 @@ func c20Run(c C20Case, st *kit.Stats) error {
 		for _, s := range c.States {
 			if s == 6 {
 				time.Sleep(400 * time.Millisecond) // until the socket buffers are full and the server is stuck in a write
+				break
+			}
+		}
+		for _, s := range c.States {
+			if s == 7 {
+				time.Sleep(60 * time.Millisecond) // until the blocking command has timed out and its reply has hit the reset connection
 				break
 			}
 		}
@@ -202,6 +230,9 @@ func c20Run(c C20Case, st *kit.Stats) error {
 		}
 		// no previously connected client can read or modify data any more
 		for i, cn := range conns {
+			if gone[i] {
+				continue
+			}
 			nonce := fmt.Sprintf("after-close-%d-%d", cycle, i)
 			cn.Drain(20 * time.Millisecond) // replies to commands that were in flight may be present or absent
 			var req []byte
